@@ -533,6 +533,11 @@ func (t *thread) checkHashTypeEncoding(shf sighash.Flag) error {
 		}
 	}
 
+	// once SIGHASH_FORKID is enabled every signature must use it (replay protection)
+	if t.hasFlag(scriptflag.EnableSighashForkID) && !shf.Has(sighash.ForkID) {
+		return errs.NewError(errs.ErrIllegalForkID, "fork id sighash not set with flag")
+	}
+
 	if !sigHashType.Has(sighash.ForkID) {
 		if sigHashType < sighash.All || sigHashType > sighash.Single {
 			return errs.NewError(errs.ErrInvalidSigHashType, "invalid hash type 0x%x", shf)
@@ -546,9 +551,6 @@ func (t *thread) checkHashTypeEncoding(shf sighash.Flag) error {
 
 	if !t.hasFlag(scriptflag.EnableSighashForkID) && shf.Has(sighash.ForkID) {
 		return errs.NewError(errs.ErrIllegalForkID, "fork id sighash set without flag")
-	}
-	if t.hasFlag(scriptflag.EnableSighashForkID) && !shf.Has(sighash.ForkID) {
-		return errs.NewError(errs.ErrIllegalForkID, "fork id sighash not set with flag")
 	}
 
 	return nil
